@@ -127,8 +127,9 @@ Definition log_deq (s : state) (nx : nat) : state :=
 
 Definition memb (x : nat) (l : list nat) : bool := existsb (Nat.eqb x) l.
 
-(* a thread uses a node pointer it holds: if that node has been handed to the pool, what the real
-   code sees depends on whether and to whom the pool has re-issued it *)
+(* a thread uses a node pointer it holds: if the release of that node has begun (releaseItem has
+   started to reset its fields; [released] is extended at its first write), what the real code
+   sees from then on depends on whether and to whom the pool re-issues the node *)
 Definition touch (s : state) (x : nat) : state :=
   mkState (nodes s) (nalloc s) (qhead s) (qtail s) (qlen s) (pool s) (released s)
           (hazard s || memb x (released s)) (threads s) (chain s) (enq_log s) (deq_log s).
@@ -202,9 +203,10 @@ Definition step (rc : bool) (s : state) (tid : nat) (o : option nat) : state * l
       let s := touch s nx in
       (set_pc s tid (PDeqClrV (if rc then h else nx) k (nval (nodes s nx))), LField)
   | PDeqClrV x k r =>
-      (set_pc (set_val s x None) tid (if rc then PDeqClrN x k r else PDeqAdd k r), LField)
+      if rc then (set_pc (set_pool (set_val s x None) (pool s) (x :: released s)) tid (PDeqClrN x k r), LField)
+      else (set_pc (set_val s x None) tid (PDeqAdd k r), LField)
   | PDeqClrN x k r => (set_pc (set_next s x None) tid (PDeqPut x k r), LField)
-  | PDeqPut x k r => (set_pc (set_pool s (x :: pool s) (x :: released s)) tid (PDeqAdd k r), LPut)
+  | PDeqPut x k r => (set_pc (set_pool s (x :: pool s) (released s)) tid (PDeqAdd k r), LPut)
   | PDeqAdd k r => (finish (add_len s (-1)) tid (res_of k r), LAdd)
   | PLen => (finish s tid (RLen (if rc then qlen s else Z.max 0 (qlen s))), LLoad)
   end.
